@@ -364,6 +364,126 @@ pub fn all_params(tier: Tier) -> Vec<(Params, usize)> {
     v
 }
 
+/// Client level: the real `Client` (dial, TLS handshake, authentication, session set-up, pool) over the in-memory
+/// dialer seam; `n` concurrent create_proxy_stream calls on a fresh client (one creates the session, the others may
+/// reuse it or dial their own). Oracle on what the scripted TLS server decrypted, per connection.
+pub fn make_client_race(n: usize, scheme: &'static str, pre_request: bool) -> crate::ctl::ScenarioFn {
+    use crate::cworld::*;
+    scenario(move || async move {
+        let mut out = Outcome::default();
+        let w = CWorld::start(padding(scheme), quiet_pool(1), Answer::Ok);
+        if pre_request {
+            // non-initial state: a session already exists and sits in the pool
+            match within(w.client.create_proxy_stream(("example.com".to_string(), 999))).await {
+                Some(Ok(_)) => {}
+                other => {
+                    out.viol("C11:client:request-failed", format!("first request: {:?}", other.map(|r| r.map(|_| ()).map_err(|e| e.to_string()))));
+                    return out;
+                }
+            }
+        }
+        let results: Arc<Mutex<Vec<Option<String>>>> = Arc::new(Mutex::new(vec![None; n]));
+        let mut hs = vec![];
+        for t in 0..n {
+            let c = w.client.clone();
+            let results = results.clone();
+            hs.push(tokio::spawn(async move {
+                hpoint("h.c11c.start").await;
+                let r = within(c.create_proxy_stream(("example.com".to_string(), 1001 + t as u16))).await;
+                results.lock().unwrap()[t] = Some(match r {
+                    None => "blocked".to_string(),
+                    Some(Ok((st, sess))) => {
+                        let s = format!("ok:stream{}", st.id());
+                        // keep stream and session alive until the scenario ends
+                        std::mem::forget((st, sess));
+                        s
+                    }
+                    Some(Err(e)) => format!("error: {e}"),
+                });
+            }));
+        }
+        for h in hs {
+            let _ = h.await;
+        }
+        tokio::time::sleep(Duration::from_secs(2)).await;
+        let res = results.lock().unwrap().clone();
+        let logs = w.logs();
+        out.obs = format!("results={:?} conns={:?}", res, logs.iter().map(|l| fmt_frames(&l.frames)).collect::<Vec<_>>());
+        for (t, r) in res.iter().enumerate() {
+            if !r.as_deref().unwrap_or("").starts_with("ok:") {
+                out.viol("C11:client:request-failed", format!("request {t} (port {}) of {n} concurrent requests on a healthy in-memory server: {:?}; server saw {:?}", 1001 + t, r, logs.iter().map(|l| fmt_frames(&l.frames)).collect::<Vec<_>>()));
+            }
+        }
+        let mut dests: Vec<u16> = vec![];
+        for (ci, l) in logs.iter().enumerate() {
+            if l.frames.is_empty() {
+                continue;
+            }
+            if !l.preamble_ok {
+                out.viol("C11:client:bad-preamble", format!("connection {ci}"));
+            }
+            if l.frames.first().map(|f| f.cmd) != Some(SETTINGS) {
+                out.viol("C11:settings-not-first", format!("connection {ci} of the real Client: first frame is not the settings frame: {}", fmt_frames(&l.frames)));
+            }
+            if l.frames.iter().filter(|f| f.cmd == SETTINGS).count() != 1 {
+                out.viol("C11:settings-count", format!("connection {ci}: {}", fmt_frames(&l.frames)));
+            }
+            let mut first_psh_seen: Vec<u32> = vec![];
+            for (i, f) in l.frames.iter().enumerate() {
+                if f.cmd == PSH {
+                    if !l.frames[..i].iter().any(|g| g.cmd == SYN && g.id == f.id) {
+                        out.viol("C11:data-before-syn", format!("connection {ci}: PSH for stream {} precedes its SYN: {}", f.id, fmt_frames(&l.frames)));
+                    }
+                    if !first_psh_seen.contains(&f.id) {
+                        first_psh_seen.push(f.id);
+                        // the first data frame of a stream is its destination: 03 len "example.com" port
+                        let ok = f.data.len() == 2 + 11 + 2 && f.data[0] == 3 && &f.data[2..13] == b"example.com";
+                        if ok {
+                            dests.push(u16::from_be_bytes([f.data[13], f.data[14]]));
+                        } else {
+                            out.viol("C11:first-data-frame-overtaken-or-dropped", format!("connection {ci}: the first data frame of stream {} is not its destination: {:02x?}", f.id, &f.data[..f.data.len().min(20)]));
+                        }
+                    }
+                }
+            }
+            for f in l.frames.iter().filter(|f| f.cmd == SYN) {
+                if !first_psh_seen.contains(&f.id) {
+                    out.viol("C11:frame-dropped", format!("connection {ci}: stream {} was opened but its destination frame never arrived: {}", f.id, fmt_frames(&l.frames)));
+                }
+            }
+        }
+        let mut want: Vec<u16> = (0..n).map(|t| 1001 + t as u16).collect();
+        if pre_request {
+            want.push(999);
+        }
+        dests.sort_unstable();
+        want.sort_unstable();
+        if dests != want && out.violations.is_empty() {
+            out.viol("C11:frame-dropped", format!("destinations seen by the server {:?}, requested {:?}", dests, want));
+        }
+        drop(w);
+        out
+    })
+}
+
+pub fn client_items(tier: Tier) -> Vec<DxItem> {
+    let mut v = vec![];
+    for (scheme, name) in [(STOP0, "stop0"), (DEFAULT, "default")] {
+        for pre in [false, true] {
+            for n in [2usize, 3] {
+                if n == 3 && !tier.is_thorough() {
+                    continue;
+                }
+                let mut it = DxItem::new(json!({"part": "client-level", "requests": n, "scheme": name, "session_exists_before": pre}), make_client_race(n, scheme, pre), if tier.is_thorough() || (n == 2 && !pre) { 2 } else { 1 });
+                it.exec.quiesce = true;
+                it.exec.long_yield = 3;
+                v.push(it);
+            }
+        }
+    }
+    v
+}
+
 pub fn items(tier: Tier) -> Vec<DxItem> {
     all_params(tier)
         .into_iter()
@@ -373,6 +493,7 @@ pub fn items(tier: Tier) -> Vec<DxItem> {
             it.exec.quiesce = true;
             it
         })
+        .chain(client_items(tier))
         .collect()
 }
 
